@@ -528,7 +528,8 @@ def policy_specs(tier):
         specs.append(("am", e, n, dict(cls="am", **small), dict(decode_type="greedy")))
     for e in (("pdp", "svrp", "mdcpdp", "mtsp", "cvrp") if quick else ("tsp", "cvrp", "sdvrp", "pdp", "svrp", "mdcpdp", "mtsp", "op")):
         specs.append(("am-no-graph-context", e, n, dict(cls="am", use_graph_context=False, normalization="instance", **small), dict(decode_type="greedy")))
-    for e in (("tsp", "pdp") if quick else ("tsp", "cvrp", "pdp", "sdvrp")):
+    # sdvrp is the environment with a non-static dynamic embedding: only there is the decoder cache itself batchified
+    for e in (("tsp", "pdp", "sdvrp") if quick else ("tsp", "cvrp", "pdp", "sdvrp")):
         specs.append(("am-multistart", e, n, dict(cls="am", **small), dict(decode_type="multistart_greedy", num_starts=3)))
     for e in (("pdp",) if quick else ("tsp", "cvrp", "pdp")):
         specs.append(("am-no-graph-context-multistart", e, n, dict(cls="am", use_graph_context=False, normalization="instance", **small),
